@@ -84,6 +84,16 @@ func TestC06(t *testing.T) {
 	kinds = append(kinds, "err", "err", "err", "fin", "rst", "short", "outofseq", "handler_err", "handler_err_cancel", "unsupported", "invalid", "undecodable", "mapper_err", "mapper_cols")
 	rapidCheck(t, func(rt *rapid.T) {
 		c := drawStop(rt, o, kinds)
+		slowLog := false
+		switch c.Fault.Kind {
+		case "err", "fin", "rst", "short", "outofseq":
+			// the application's logger is slow (a remote sink, a full pipe): every error-level line the reader
+			// goroutine writes takes 1.2 s.  What Stream and Error() report must not depend on it.
+			if rapid.IntRange(0, 19).Draw(rt, "error_log_line_takes_1200ms") == 0 {
+				c.PerturbWho, c.PerturbLevel, c.PerturbMicros = 1, 1, 1200000
+				slowLog = true
+			}
+		}
 		journal("C06", "c06", c)
 		obs := runStop(c)
 		transport := false
@@ -104,6 +114,9 @@ func TestC06(t *testing.T) {
 		}
 		if obs.CallerCancelled {
 			cls = append(cls, "caller-cancelled")
+		}
+		if slowLog {
+			cls = append(cls, "slow-logger/error-lines-of-the-reader-take-1.2s")
 		}
 		rec.Case(nt, c, cls...)
 		if nt {
